@@ -60,9 +60,10 @@ Definition call_init (t : thread) : thread :=
 
 (* the loop head up to (not including) `fr.pc = pc`: returns the thread and
    Some reason when the loop is left with the cancellation error *)
+Definition limit_hit (t1 : thread) : bool := maxSteps t1 <=? steps t1.   (* Steps >= maxSteps *)
 Definition loop_head (t : thread) : thread * option reason :=
   let t1 := set_steps t ((steps t + 1) mod two64) in            (* thread.Steps++ *)
-  let t2 := if maxSteps t1 <=? steps t1                          (* Steps >= maxSteps *)
+  let t2 := if limit_hit t1
             then match onmax t1 with
                  | Some h => set_cancel t1 (h (cancel t1))       (* thread.OnMaxSteps(thread) *)
                  | None => do_cancel t1 too_many_steps           (* thread.Cancel("too many steps") *)
@@ -81,7 +82,17 @@ Inductive event :=
 | EvDispatch                  (* an instruction was fetched and dispatched *)
 | EvCancelExit (r : reason)   (* a loop was left with "Starlark computation cancelled: r" *)
 | EvBuiltin                   (* a built-in was entered *)
-| EvHostStep.                 (* host code inside a built-in made one step *)
+| EvHostStep                  (* host code inside a built-in made one step *)
+| EvCancel (r : reason)       (* somebody called thread.Cancel(r): another goroutine, a built-in,
+                                 or the default OnMaxSteps behaviour *)
+| EvUncancel                  (* somebody called thread.Uncancel() *)
+| EvOnMaxCustom.              (* the client's OnMaxSteps handler ran *)
+
+(* the Cancel / handler call made by the loop head, as an event *)
+Definition head_events (t : thread) : list event :=
+  if limit_hit (set_steps t ((steps t + 1) mod two64))
+  then match onmax t with None => [EvCancel too_many_steps] | Some _ => [EvOnMaxCustom] end
+  else [].
 
 Section Machine.
   Variable St : Type.
@@ -149,9 +160,10 @@ Section Machine.
           match ph with
           | Head =>
               let (t', cr) := loop_head (th c) in
+              let ev := EvHead :: head_events (th c) in
               match cr with
-              | Some r => (deliver t' rest (st c) (Some (ECancel r)), [EvHead; EvCancelExit r])
-              | None => (Running (mkConfig t' (FStar Disp :: rest) (st c) None), [EvHead])
+              | Some r => (deliver t' rest (st c) (Some (ECancel r)), ev ++ [EvCancelExit r])
+              | None => (Running (mkConfig t' (FStar Disp :: rest) (st c) None), ev)
               end
           | Disp =>
               (match dispatch (st c) with
@@ -172,7 +184,12 @@ Section Machine.
          | HUncancel s => Running (mkConfig (do_uncancel (th c)) (stk c) s None)
          | HReturn s => deliver (th c) rest s None
          | HFail e s => deliver (th c) rest s (Some e)
-         end, [EvHostStep])
+         end,
+         match host (st c) (perr c) with
+         | HCancel r _ => [EvHostStep; EvCancel r]
+         | HUncancel _ => [EvHostStep; EvUncancel]
+         | _ => [EvHostStep]
+         end)
     end.
 
   (* ---- schedules: the machine interleaved with other goroutines ---- *)
@@ -190,8 +207,8 @@ Section Machine.
   Definition tick_step (s : status) (k : tick) : status * list event :=
     match k with
     | TRun => match s with Running c => mstep c | Finished _ _ _ => (s, []) end
-    | TCancel r => (with_thread s (fun t => do_cancel t r), [])
-    | TUncancel => (with_thread s do_uncancel, [])
+    | TCancel r => (with_thread s (fun t => do_cancel t r), [EvCancel r])
+    | TUncancel => (with_thread s do_uncancel, [EvUncancel])
     end.
 
   Fixpoint run (s : status) (sched : list tick) : status * list event :=
@@ -213,14 +230,15 @@ Section Machine.
   | HEvExec (s : St) (sched : list tick).    (* must run to completion under sched *)
 
   Inductive hobs :=
+  | OOp (tr : list event)                     (* a Cancel / Uncancel between executions *)
   | OExec (r : option err) (steps_after : N) (tr : list event)
   | OStuck.                                    (* the schedule ended before the execution did *)
 
   Fixpoint life (t : thread) (h : list hevent) : thread * list hobs :=
     match h with
     | [] => (t, [])
-    | HEvCancel r :: h' => life (do_cancel t r) h'
-    | HEvUncancel :: h' => life (do_uncancel t) h'
+    | HEvCancel r :: h' => let (t2, o) := life (do_cancel t r) h' in (t2, OOp [EvCancel r] :: o)
+    | HEvUncancel :: h' => let (t2, o) := life (do_uncancel t) h' in (t2, OOp [EvUncancel] :: o)
     | HEvExec s sched :: h' =>
         match run (start t s) sched with
         | (Finished t' _ r, tr) => let (t2, o) := life t' h' in (t2, OExec r (steps t') tr :: o)
@@ -251,6 +269,7 @@ Inductive sop := SCancel (r : reason) | SUncancel.
 Inductive sinstr :=
 | SPlain (n : N)                 (* n ordinary instructions *)
 | SBuiltin (ops : list sop)     (* CALL of a logging host built-in performing ops *)
+| SFail                          (* an instruction that fails (err != nil; break loop) *)
 | SLoop.                         (* the measured prefix ended: the program goes on for ever *)
 
 Record sstate := mkS { code : list sinstr; pending : option (list sop) }.
@@ -260,6 +279,7 @@ Definition s_dispatch (s : sstate) : action sstate :=
   | [] => AReturn s
   | SPlain n :: r => if n <=? 1 then ANext (mkS r None) else ANext (mkS (SPlain (n - 1) :: r) None)
   | SBuiltin ops :: r => ABuiltin (mkS r (Some ops))
+  | SFail :: r => AError 1 (mkS r None)
   | SLoop :: _ => ANext s
   end.
 
@@ -277,12 +297,13 @@ Definition s_run (s : status sstate) (sched : list (tick)) :=
   run sstate s_dispatch s_host true (fun _ => false) s sched.
 
 (* run to completion without adversary: fuel = number of micro-steps *)
+(* acc: events so far, most recent first *)
 Fixpoint s_exec (fuel : nat) (s : status sstate) (acc : list event) : status sstate * list event :=
   match fuel with
   | O => (s, acc)
   | S f => match s with
            | Finished _ _ _ => (s, acc)
            | Running c => let (s', e) := mstep sstate s_dispatch s_host true (fun _ => false) c in
-                          s_exec f s' (acc ++ e)
+                          s_exec f s' (rev_append e acc)
            end
   end.
